@@ -265,7 +265,7 @@ def check(model: Model, run: Run) -> None:
         'a read that is cancelled by asyncio.wait_for after consuming part of a message must end the session: the '
         'TimeoutError arm of every wait_for around a message read raises (it must not map the timeout to a no-op and '
         'read the same connection again)',
-        floor=2,
+        floor=1,
     )
     _r7_cancel(model, run, folder)
 
